@@ -118,6 +118,18 @@ def run_case(case, work, rec):
                      (f"listmask:sorted{k}", [i >= k for i in range(nf)], list(range(k, nf))),
                      (f"nparr:{fl}", np.array(fl), fl)]
             lenient = {sels[-3][0], sels[-2][0], sels[-1][0]}
+            # indices counted from the end: the run of the last two / three fields, and every field
+            kk = min(nf, rng.choice([2, 3]))
+            tail = list(range(-kk, 0))
+            sels += [(f"neglist:{tail}", tail, list(range(nf - kk, nf))),
+                     (f"negarr:{tail}", np.array(tail), list(range(nf - kk, nf))),
+                     (f"neglist:all", list(range(-nf, 0)), list(range(nf)))]
+            lenient |= {sels[-3][0], sels[-2][0], sels[-1][0]}
+            if nf > kk:      # the same run one field earlier: it does not reach the last field
+                inner = [t - 1 for t in tail]
+                sels.append((f"neglist:{inner}", inner, list(range(nf - kk - 1, nf - 1))))
+                lenient.add(sels[-1][0])
+        neg_outcomes = {}      # form of a negative index list -> answered / refused (the family must be treated alike)
         for fd, fsel, comps in sels:
             exp = multiset([m.data[lv][bi][..., comps] for bi in range(nb)])
             if nfl <= 4:
@@ -147,6 +159,8 @@ def run_case(case, work, rec):
                     except StopIteration:
                         extra = False
                 except Exception as e:
+                    if fd.startswith("neglist:"):
+                        neg_outcomes.setdefault(fd, f"refused ({type(e).__name__})")
                     if fd in lenient:
                         rec.count("lenient_forms_refused")
                         rec.ok(key, False)
@@ -155,6 +169,8 @@ def run_case(case, work, rec):
                                   witness={"selector": fd, "level": lv, "schedule": list(perm), "exc": repr(e)[:300]}, key=key)
                     continue
                 rec.count("iterations")
+                if fd.startswith("neglist:"):
+                    neg_outcomes.setdefault(fd, "answered")
                 if fd in lenient:
                     rec.count("lenient_forms_answered")
                 if list(perm) != sorted(perm):
@@ -180,6 +196,13 @@ def run_case(case, work, rec):
                 else:
                     rec.ok(key, interesting and list(perm) != sorted(perm))
         # on-demand iterator over a box selection: requested order, bit-equal
+        # lists of indices counted from the end are one form: answered for one run of fields and refused for another
+        # (the run that reaches the last field, say) is a defect on the refused one, not a refusal of the form
+        if len(set(neg_outcomes.values())) > 1 and "answered" in neg_outcomes.values():
+            rec.violation(f"iteration treats lists of negative field indices inconsistently at level {lv}: {neg_outcomes}",
+                          key=(digest, "neglist-family", lv), witness={"outcomes": neg_outcomes})
+        elif neg_outcomes:
+            rec.count("negative_index_list_families_judged")
         bsels = [("slice:all", slice(None), list(range(nb))), ("slice:rev", slice(None, None, -1), list(range(nb))[::-1]),
                  ("slice:2", slice(None, None, 2), list(range(nb))[::2])]
         ids = [rng.randrange(nb) for _ in range(rng.randint(1, min(nb, 5)))]
